@@ -1024,5 +1024,15 @@ def rule_arith(ctx):
     return r
 
 
-RULES = [rule_arith, rule_copy, rule_alias, rule_track, rule_staleread, rule_pre, rule_presource, rule_whole,
+def rule_merge(ctx):
+    """Shared with C18-MERGE (seed C01_4): annealing installs the legs, cost and size computed by the move
+    evaluator on the new node (`contract_nodes_pair(legs=…, cost=…, size=…)`); they are the tree's own figures
+    only if the evaluator merges the two leg tables by the tree's survival rule."""
+    from .c18 import rule_merge as src
+
+    return C.reuse_rule(ctx, src, "C18-MERGE", "C04-MERGE",
+                        "figures installed by annealing moves follow the tree's survival rule", lambda i: True, 3)
+
+
+RULES = [rule_merge, rule_arith, rule_copy, rule_alias, rule_track, rule_staleread, rule_pre, rule_presource, rule_whole,
          rule_presurv, rule_pure, rule_rebuild, rule_multpair, rule_maxcount, rule_leaf]
